@@ -1097,11 +1097,13 @@ def _const_val(k):
 ENUM_DISCR = {}
 
 
-def reachable_cp(fn, starts, cut_edges=(), cut_blocks=(), init=None, max_states=30000):
+def reachable_cp(fn, starts, cut_edges=(), cut_blocks=(), init=None, max_states=30000, marks=None):
     """Like reachable(), but path-sensitive on locals that hold constants and are
     later switched on (the `let flag = match … { A => true, … }; if flag {…}` idiom):
     a switch whose operand has a known constant on this path takes only that edge.
-    Falls back to plain reachability if the state budget is exceeded."""
+    Falls back to plain reachability if the state budget is exceeded.
+    With `marks` (a set of blocks) only the blocks entered AFTER a marked block has been executed on the path are returned:
+    `reachable_cp(f, [0], marks={b})` is "what can follow b", with everything the path learnt before b still known."""
     cut_edges, cut_blocks = set(cut_edges), set(cut_blocks)
     # locals worth tracking: switch operands and what is copied into them
     track = set()
@@ -1136,9 +1138,14 @@ def reachable_cp(fn, starts, cut_edges=(), cut_blocks=(), init=None, max_states=
             continue
         seen.add((bb, st))
         if len(seen) > max_states:
+            if marks is not None:
+                return reachable(fn, [x for m_ in marks for x in succs(fn, m_)], cut_blocks, cut_edges, _plain=True)
             return reachable(fn, starts, cut_blocks, cut_edges, _plain=True)
-        blocks.add(bb)
         env = dict(st)
+        if marks is None or ('M', 0) in env:
+            blocks.add(bb)
+        if marks is not None and bb in marks:
+            env[('M', 0)] = 1
         b = fn.bbs[bb]
         for s in b['s']:
             d = s[0]
@@ -1228,9 +1235,15 @@ def reachable_cp(fn, starts, cut_edges=(), cut_blocks=(), init=None, max_states=
             # a mutable borrow of a tracked local invalidates it
             if rv[0] == 'ref' and rv[2] and not rv[1][1]:
                 env.pop(rv[1][0], None)
+            # a moved-out temporary is dead: forget what was known about it (keeps the state space small)
+            for o_ in rvalue_operands(rv):
+                if o_[0] == 'm' and not o_[1][1] and o_[1][0] != l:
+                    env.pop(('V', o_[1][0]), None)
+                    env.pop(('P', o_[1][0]), None)
         t = b['t']
         nxt = None
         if t[0] == 'call':
+            moved_args = [a_[1][0] for a_ in t[3] if a_[0] == 'm' and not a_[1][1]]
             if not t[4][1]:
                 env.pop(t[4][0], None)
                 vk = ('V', t[4][0])
@@ -1250,6 +1263,10 @@ def reachable_cp(fn, starts, cut_edges=(), cut_blocks=(), init=None, max_states=
                     env[vk] = 'Ok' if av == 'Some' else 'Err'
                 else:
                     env.pop(vk, None)
+            for m_ in moved_args:
+                if t[4][1] or m_ != t[4][0]:
+                    env.pop(('V', m_), None)
+                    env.pop(('P', m_), None)
         if t[0] == 'sw' and t[1][0] in ('c', 'm') and not t[1][1][1] and t[1][1][0] in env:
             v = str(env[t[1][1][0]])
             listed = dict(t[2])
